@@ -23,6 +23,35 @@ function freshTree(ge, G, main, D, extra, propComponents, dynSlotChild) {
   return { tree: snap(ge, comp, tr, {}) }
 }
 
+/** Fire every event some binding of the tree names, on every element that has such a binding (document order), with the
+ *  listener wrapper replaced by a recorder: returns which handlers ran, in order (function handlers by name). */
+function firedHandlers(ge, comp, tr) {
+  const pgw = comp._$tmplInst && comp._$tmplInst.procGenWrapper
+  const list = []
+  let n = 0
+  if (!pgw) return { list, text: '', n }
+  const prev = pgw.eventListenerWrapper
+  let cur = null
+  pgw.eventListenerWrapper = (caller, ev, f, path) => { cur.push((typeof f === 'function' ? 'fn:' + (f.name || '?') : String(f)) + (path ? '@' + JSON.stringify(path) : '')) }
+  try {
+    const visit = (node) => {
+      if (node.childNodes === undefined) return
+      const ch = tr.chan.get(node)
+      if (ch && ch.v) {
+        for (const ev of Object.keys(ch.v).sort()) {
+          cur = []
+          try { node.triggerEvent(ev, {}, { bubbles: false, capturePhase: true }) } catch (e) { cur.push('throws:' + String(e.message || e).slice(0, 60)) }
+          n++
+          list.push(`<${node.is || ''}> ${ev}: [${cur.join(', ')}]`) // (no node index: transparent virtual nodes may differ)
+        }
+      }
+      node.childNodes.forEach(visit)
+    }
+    comp.getShadowRoot().childNodes.forEach(visit)
+  } finally { pgw.eventListenerWrapper = prev }
+  return { list, text: list.join('\n'), n }
+}
+
 /** Snapshot with the l-value paths removed from every channel (matcher of finding lvalue-path-stale-after-index-shift). */
 export function maskPaths(nodes) {
   return nodes.map((n) => {
@@ -128,6 +157,25 @@ export function runHistory(ctx, c, res) {
     }
     if (diffSnap(prevTree, fresh.tree)) changedOnce = true
     prevTree = fresh.tree
+    // what the attached listeners really are: at the end of the history every bound event is fired on the updated
+    // instance and on a fresh one; the handlers that run (in order) must be the same
+    if (i === c.ops.length - 1 && !c.synthetic) {
+      const base2 = mk()
+      for (let k = 0; k <= i; k++) applyOp(base2, c.ops[k])
+      const f2 = instantiate(ge, G, c.fs.main, base2, { keepEvents: false, templateExtra: extra, propComponents: pc, dynSlotChild: dsc })
+      if (!f2.error) {
+        const a = firedHandlers(ge, live.comp, live.tr)
+        const b = firedHandlers(ge, f2.comp, f2.tr)
+        report.count('events_fired', a.n)
+        if (a.text !== b.text) {
+          let k = 0
+          while (k < a.list.length && a.list[k] === b.list[k]) k++
+          viol(`after the history the listeners attached to an element differ from a fresh creation: ${a.list[k]} vs ${b.list[k]}`.slice(0, 500), { step: i, updated: a.list.slice(Math.max(0, k - 2), k + 3), fresh: b.list.slice(Math.max(0, k - 2), k + 3) })
+          c.failed = true
+          return
+        }
+      }
+    }
   }
   let setters = 0
   for (const [k, v] of Object.entries(live.tr.counts)) if (k.startsWith('R.') || k === 'T') { setters += v - (before[k] || 0); report.cell('update_mode_events', k, 'n', v - (before[k] || 0)) }
@@ -169,7 +217,7 @@ function focusNodes(r, fs_) {
   const it = (f) => X.mem(X.id('item'), f)
   const body = () => ({ t: 'el', tag: 'q', attrs: [{ fam: 'plain', name: 'v', value: M.ev(it('v')) }, { fam: 'data:', name: 'x', value: M.ev(it('x')) }], children: [{ t: 'text', v: M.mv('#', it('id'), ':', X.id('index'), ':', X.id(r.pick(['a', 'flag', 's'])), ':', X.idx(it('sub'), X.num('1'))) }] })
   const out = []
-  if (r.bool(0.4)) out.push({ t: 'el', tag: 'q', attrs: [{ fam: 'plain', name: 'n', value: M.ev(X.mem(X.id('list'), 'length')) }, { fam: 'data:', name: 'foo', value: M.ev(X.mem(X.idx(X.id('list'), X.num('1')), 'v')) }], children: [{ t: 'text', v: M.mv('', X.mem(X.idx(X.arr([{ k: 'spread', e: X.id('list') }]), X.num('0')), 'id'), '/', X.mem(X.obj([{ k: 'spread', e: X.id('arr') }]), 'length'), '/', X.mem(X.id('arr'), 'length')) }] })
+  if (r.bool(0.4)) out.push({ t: 'el', tag: 'q', attrs: [{ fam: 'plain', name: 'n', value: M.ev(X.mem(X.id('list'), 'length')) }, { fam: 'data:', name: 'foo', value: M.ev(X.mem(X.idx(X.id('list'), X.num('1')), 'v')) }, { fam: 'plain', name: 'once', value: M.ev(X.mem(X.idx(X.obj([{ k: 'spread', e: X.id('list') }]), X.num('0')), 'v')) }, { fam: 'mark', name: 'x1', value: M.ev(X.idx(X.obj([{ k: 'kv', name: 'x', e: X.num('1') }, { k: 'spread', e: X.id('arr') }]), X.num('1'))) }], children: [{ t: 'text', v: M.mv('', X.mem(X.idx(X.arr([{ k: 'spread', e: X.id('list') }]), X.num('0')), 'id'), '/', X.mem(X.obj([{ k: 'spread', e: X.id('arr') }]), 'length'), '/', X.mem(X.id('arr'), 'length'), '/', X.mem(X.idx(X.obj([{ k: 'spread', e: X.id('list') }]), X.num('0')), 'v'), '/', X.idx(X.obj([{ k: 'kv', name: 'x', e: X.num('1') }, { k: 'spread', e: X.id('arr') }]), X.num('1'))) }] })
   const k = r.range(1, 2)
   for (let i = 0; i < k; i++) {
     const kind = r.int(10)
@@ -195,6 +243,10 @@ function focusNodes(r, fs_) {
       kids.push({ t: 'el', tag: 'q', attrs: [{ fam: 'plain', name: 'w', value: M.ev(X.id('v')) }], slotVals: receives ? [{ name: 'v' }, { name: 'i' }] : [], children: inner })
       if (defs.length && r.bool(0.3)) kids.push({ t: 'tref', is: M.sv(r.pick(defs)), data: X.obj([{ k: 'kv', name: 'a', e: X.id('a') }]) })
       out.push({ t: 'el', tag: r.pick(['d-s', 'd-k']), attrs: [{ fam: 'plain', name: 'list', value: M.ev(r.pick([() => X.id('list'), () => items, () => X.bin('||', items, X.id('list'))])()) }], children: r.shuffle(kids) })
+    } else if (r.bool(0.5)) {
+      // a `slot:` value reference on content of an element that is not a dynamic-slots component at run time (a
+      // single-slot component or a native node): no value is ever supplied, and updates must still go through
+      out.push({ t: 'el', tag: r.pick(['x-a', 'view']), attrs: [], children: [{ t: 'el', tag: 'q', attrs: [{ fam: 'plain', name: 'w', value: M.ev(X.id(r.pick(['a', 's', 'flag']))) }], slotVals: [{ name: 'v' }], children: [{ t: 'text', v: M.mv('', X.id(r.pick(['a', 's', 'flag'])), '-', X.id('v')) }] }, { t: 'el', tag: 'q', attrs: [{ fam: 'plain', name: 'after', value: M.ev(X.id(r.pick(['a', 's', 'n']))) }], children: [] }] })
     } else {
       const defs = (fs_.files[fs_.main].defs || []).map((d) => d.name)
       if (defs.length) out.push({ t: 'tref', is: M.sv(r.pick(defs)), data: X.obj([{ k: 'kv', name: 'a', e: X.bin('&&', X.id('obj'), X.mem(X.id('obj'), 'y')) }, { k: 'kv', name: 'b', e: X.idx(items, X.num('0')) }, { k: 'spread', e: X.bin('||', X.id('ob'), X.obj([])) }]) })
